@@ -86,6 +86,9 @@ type Contract struct {
 	Key      string // "Deque.PushFront" or "positiveMod" (package-local) or "slices.Index" for ext
 	Pkg      string // package path the block was declared in
 	Ext      bool   // assume-ext: contract of a function outside the repo (never proved)
+	ThoroughOnly bool // verified in the thorough tier only (slow lemma clients)
+	Derives string // lemma client: name of the function whose trusted postconditions it derives
+	BudgetS int // per-solver time limit override (seconds)
 	WithoutTrust bool // lemma client: trusted postconditions of the functions it calls are NOT assumed (it derives them)
 	NoAlloc bool // the function allocates nothing (checked at its exits; callers keep their alloc sets)
 	Trusted  bool   // repo function whose contract is assumed, not proved (reported)
@@ -165,7 +168,7 @@ type PkgSpec struct {
 	Axioms    []*Clause
 }
 
-var kwRe = regexp.MustCompile(`^(pure|pred|ghostinit|ghost|func|props|requires|ensures|trustens|panics|pensures|modifies|ghostparam|uses|inlinecall|dispatch|intwidth|anykinds|repeats|repeatargs|loop|ext|lemma|axiom|inline|trusted|decreases|ispure|noalloc|layers|withouttrust|params|results|end|sort|ufun|callback|before|after|invokes)\b`)
+var kwRe = regexp.MustCompile(`^(pure|pred|ghostinit|ghost|func|props|requires|ensures|trustens|panics|pensures|modifies|ghostparam|uses|inlinecall|dispatch|intwidth|anykinds|repeats|repeatargs|loop|ext|lemma|axiom|inline|trusted|decreases|ispure|noalloc|layers|withouttrust|budget|derives|thoroughonly|params|results|end|sort|ufun|callback|before|after|invokes)\b`)
 
 func loadPkgSpec(dir, pkgPath string) (*PkgSpec, error) {
 	ps := &PkgSpec{Path: pkgPath, Macros: map[string]*Macro{}, Ghosts: map[string]*GhostField{}, Contracts: map[string]*Contract{}, Sorts: map[string]bool{}, UFuns: map[string]*UFun{}, Callbacks: map[string]*Contract{}}
@@ -401,6 +404,15 @@ func (ps *PkgSpec) parseFile(file, data string) error {
 			cur.NoAlloc = true
 		case "withouttrust":
 			cur.WithoutTrust = true
+		case "thoroughonly":
+			cur.ThoroughOnly = true
+		case "derives":
+			// derives F: this lemma client proves F's trusted postconditions from F's proved ones
+			cur.Derives = strings.TrimSpace(rest)
+			cur.WithoutTrust = true
+		case "budget":
+			// budget N: per-solver time limit (seconds) for the obligations of this function, when larger than the tier's
+			cur.BudgetS, _ = strconv.Atoi(strings.TrimSpace(rest))
 		case "layers":
 			ps.StrictLayers = true
 		case "inline":
